@@ -138,16 +138,29 @@ def break_points(code, rng):
         elif c == "," and i + 1 < len(code):
             cands.append(i + 1)
     if not cands or rng.random() < 0.5:
-        return [code]
-    k = rng.choice([1, 1, 2])
-    cuts = sorted(rng.sample(cands, min(k, len(cands))))
-    pieces, prev = [], 0
-    for cpos in cuts:
-        pieces.append(code[prev:cpos])
-        prev = cpos
-    pieces.append(code[prev:])
+        pieces = [code]
+    else:
+        k = rng.choice([1, 1, 2])
+        cuts = sorted(rng.sample(cands, min(k, len(cands))))
+        pieces, prev = [], 0
+        for cpos in cuts:
+            pieces.append(code[prev:cpos])
+            prev = cpos
+        pieces.append(code[prev:])
     pieces = [p.strip() if j else p.rstrip() for j, p in enumerate(pieces)]
-    return [p for p in pieces if p] or [code]
+    pieces = [p for p in pieces if p] or [code]
+    # statement text must fit in columns 7-72: a piece that is too long is cut again at its last break candidate that fits
+    out = []
+    for p in pieces:
+        while len(p) > 60:
+            cut = max((i for i, ch in enumerate(p[:60]) if ch in " ," and p[:i].count("'") % 2 == 0 and p[:i].count('"') % 2 == 0 and i > 0), default=0)
+            if cut == 0:
+                break
+            cut = cut + 1 if p[cut] == "," else cut
+            out.append(p[:cut].rstrip())
+            p = p[cut:].strip()
+        out.append(p)
+    return [p for p in out if p]
 
 
 def corpus():
